@@ -81,7 +81,7 @@ else:
     if ok:
         meta["checks"] = {}
         for ck in checks:
-            rc, out, dt = run(["./check", ck, tier], cwd="/verif", timeout=3600, extra={"VERIF_REPO": wt, "VERIF_UNIT_TIMEOUT": "600"})
+            rc, out, dt = run(["./check", ck, tier], cwd="/verif", timeout=3600, extra={"VERIF_REPO": wt, "VERIF_UNIT_TIMEOUT": "600", "VERIF_EVID_DIR": "/tmp/seedv/evid", "VERIF_OUT_DIR": "/tmp/seedv/out"})
             mechs = sorted(set(re.findall(r"mech=(\S+)", out)))[:12]
             verdict = {0: "MISSED (exit 0)", 1: "CAUGHT (exit 1)", 2: "INCONCLUSIVE (exit 2)"}.get(rc, "exit %s" % rc)
             line = next((l for l in out.splitlines() if re.match(r"^C\d+ (HELD|VIOLATED|INCONCLUSIVE)", l)), "")
